@@ -22,6 +22,194 @@ func rulesExtra(c *Ctx) {
 	c.ruleP4()
 	c.ruleB4()
 	c.ruleB5()
+	c.ruleT3()
+	c.ruleT4()
+}
+
+// T3 — fetched entries of another database are refused. The replicator wraps what it fetches
+// in a log carrying the store's id, and Join adopts the heads of the joined log even when it
+// adds none of its entries (DF9), so the fetch step itself must compare every fetched entry's
+// log id with the store's and fail on a mismatch.
+func (c *Ctx) ruleT3() {
+	n := 0
+	for _, f := range c.fnsInPkg("stores/replicator") {
+		if c.isTestFile(f.Pos()) {
+			continue
+		}
+		eachCall(f, func(call ssa.CallInstruction) {
+			if calleeFull(call) != logMod+".NewFromEntryHash" || call.Value() == nil {
+				return
+			}
+			n++
+			cons := fnKey(f) + "→fetch#log-id"
+			d := derived([]ssa.Value{call.Value()}, flowOpts{throughCalls: true})
+			var tests []*ssa.If
+			mismatchEdge := map[*ssa.If]int{}
+			eachInstr(f, func(in ssa.Instruction) {
+				bo, ok := in.(*ssa.BinOp)
+				if !ok || (bo.Op != token.EQL && bo.Op != token.NEQ) {
+					return
+				}
+				isLogID := func(v ssa.Value) bool {
+					cl, ok := v.(*ssa.Call)
+					return ok && methodName(cl) == "GetLogID" && cl.Common().IsInvoke() && d[cl.Common().Value]
+				}
+				if !isLogID(bo.X) && !isLogID(bo.Y) {
+					return
+				}
+				for _, r := range *bo.Referrers() {
+					if iff, ok := r.(*ssa.If); ok {
+						tests = append(tests, iff)
+						if bo.Op == token.NEQ {
+							mismatchEdge[iff] = 0
+						} else {
+							mismatchEdge[iff] = 1
+						}
+					}
+				}
+			})
+			if len(tests) == 0 {
+				c.bad("T3", cons, call.Pos(), "the fetch step never compares the log id of what it fetched with the store's: the fetched log is created with the store's id whatever its entries say, and Join merges that log's heads even when it adds none of its entries, so a valid entry of ANOTHER database (announced as a head or referenced as an ancestor) shows up among this log's heads and values")
+				return
+			}
+			viol := false
+			for _, iff := range tests {
+				sc := iff.Block().Succs[mismatchEdge[iff]]
+				if hit, tr := findPath(f, atBlock(sc), nil, successReturn, nil); hit != nil && branchCovers(sc, hit.Block()) {
+					viol = true
+					c.bad("T3", cons, hit.Pos(), "the branch taken when a fetched entry belongs to another log still returns success", c.trailStr(tr)...)
+				}
+			}
+			if !viol {
+				c.ok("T3", cons, call.Pos(), "a fetched entry whose log id differs from the store's makes the fetch step fail")
+			}
+		})
+	}
+	c.floor("T3", "replicator fetch steps", n, 1)
+}
+
+// T4 — the replicator is only handed heads that were accepted. In the function that checks
+// received heads against the access controller and hands them to Replicator.Load, the slice
+// handed over is not the received one but one built by appends that are each dominated by
+// the accepting outcome of CanAppend.
+func (c *Ctx) ruleT4() {
+	n := 0
+	for _, f := range c.RepoFns {
+		if c.isTestFile(f.Pos()) || f.Parent() != nil {
+			continue
+		}
+		var canAppends []ssa.CallInstruction
+		var loads []ssa.CallInstruction
+		for _, g := range withClosures(f) {
+			eachCall(g, func(call ssa.CallInstruction) {
+				if methodName(call) == "CanAppend" && c.isMethodOn(call, "CanAppend", ifaceLogAC) {
+					canAppends = append(canAppends, call)
+				}
+				if methodName(call) == "Load" && recvOf(call) != nil && strings.Contains(typeStr(recvOf(call).Type()), "eplicator") {
+					loads = append(loads, call)
+				}
+			})
+		}
+		if len(canAppends) == 0 || len(loads) == 0 {
+			continue
+		}
+		if !c.isControlFn(f) {
+			n++
+		}
+		cons := fnKey(f) + "→Load#accepted-only"
+		for _, ld := range loads {
+			args := argsOf(ld)
+			if len(args) < 2 {
+				continue
+			}
+			arg := args[1]
+			// the received slice itself?
+			isParam := false
+			for _, p := range f.Params {
+				if arg == ssa.Value(p) || isParamValue(arg, p) {
+					isParam = true
+				}
+			}
+			if isParam {
+				c.bad("T4", cons, ld.Pos(), "the replicator is handed the received list of heads itself, including the heads the access controller (or the other checks) just refused: a peer without write access makes this node fetch whatever addresses it names — every fetch slot can be kept busy with unfetchable ones, which blocks the replication of valid entries for good — and refused, unchecked head objects travel on to the replicator's events")
+				continue
+			}
+			// a slice built here: every append feeding it is dominated by the accepting outcome of CanAppend
+			viol := false
+			checked := 0
+			var walk func(v ssa.Value, depth int)
+			seen := map[ssa.Value]bool{}
+			walk = func(v ssa.Value, depth int) {
+				if v == nil || seen[v] || depth > 6 {
+					return
+				}
+				seen[v] = true
+				switch x := v.(type) {
+				case *ssa.Phi:
+					for _, e := range x.Edges {
+						walk(e, depth+1)
+					}
+				case *ssa.Call:
+					if b, ok := x.Call.Value.(*ssa.Builtin); ok && b.Name() == "append" {
+						checked++
+						okDom := false
+						for _, ca := range canAppends {
+							ev := errResult(ca)
+							if ev == nil {
+								continue
+							}
+							for _, t := range errTests(ev) {
+								if t.Ok != nil && branchCovers(t.Ok, x.Block()) {
+									okDom = true
+								}
+							}
+						}
+						if !okDom {
+							viol = true
+						}
+						walk(x.Call.Args[0], depth+1)
+					}
+				case *ssa.UnOp:
+					if a, ok := x.X.(*ssa.Alloc); ok {
+						for _, r := range *a.Referrers() {
+							if st, ok := r.(*ssa.Store); ok && st.Addr == ssa.Value(a) {
+								walk(st.Val, depth+1)
+							}
+						}
+					}
+				case *ssa.FreeVar:
+					// captured cell of the parent
+					if p := x.Parent().Parent(); p != nil {
+						eachInstr(p, func(in ssa.Instruction) {
+							if mc, ok := in.(*ssa.MakeClosure); ok && mc.Fn == ssa.Value(x.Parent()) {
+								for i, fv := range x.Parent().FreeVars {
+									if fv == x && i < len(mc.Bindings) {
+										walk(mc.Bindings[i], depth+1)
+									}
+								}
+							}
+						})
+					}
+				case *ssa.Alloc:
+					for _, r := range *x.Referrers() {
+						if st, ok := r.(*ssa.Store); ok && st.Addr == ssa.Value(x) {
+							walk(st.Val, depth+1)
+						}
+					}
+				}
+			}
+			walk(arg, 0)
+			switch {
+			case viol:
+				c.bad("T4", cons, ld.Pos(), "a head is added to the list handed to the replicator on a path where the access controller has not accepted it")
+			case checked == 0:
+				c.undecided("T4", cons, ld.Pos(), "cannot see how the list handed to the replicator is built")
+			default:
+				c.ok("T4", cons, ld.Pos(), fmt.Sprintf("the list handed to the replicator is built from heads appended only after CanAppend accepted them (%d append site(s))", checked))
+			}
+		}
+	}
+	c.floor("T4", "functions checking received heads and loading them", n, 1)
 }
 
 func (c *Ctx) ruleI6() {
@@ -80,8 +268,166 @@ func (c *Ctx) ruleI6() {
 					c.bad("I6", fk+"→scan-position:"+fieldVarOf(fa).Name(), st.Pos(), "the index remembers how far into the total order it has read: the order is not append-only under merges, so what lies before that position can change")
 				}
 			})
+			// entries skipped because of something remembered from earlier calls: a branch whose
+			// condition derives from receiver state that the index itself writes, and one of whose
+			// outcomes reaches the next iteration / the end without touching the view
+			if f.Name() == "UpdateIndex" {
+				written := map[*types.Var]bool{}
+				for _, g := range c.methodsOf(nt) {
+					eachInstr(g, func(in ssa.Instruction) {
+						switch x := in.(type) {
+						case *ssa.Store:
+							if fa, ok := x.Addr.(*ssa.FieldAddr); ok && isRecv(g, fa.X) {
+								written[fieldVarOf(fa)] = true
+							}
+						case *ssa.MapUpdate:
+							if u, ok := x.Map.(*ssa.UnOp); ok {
+								if fa, ok := u.X.(*ssa.FieldAddr); ok && isRecv(g, fa.X) {
+									written[fieldVarOf(fa)] = true
+								}
+							}
+						}
+					})
+				}
+				var state []ssa.Value
+				eachInstr(f, func(in ssa.Instruction) {
+					fa, ok := in.(*ssa.FieldAddr)
+					if !ok || !isRecv(f, fa.X) {
+						return
+					}
+					fv := fieldVarOf(fa)
+					if fv == nil || !written[fv] || strings.HasPrefix(typeStr(fv.Type()), "sync.") {
+						return
+					}
+					// reads of the field: loads, and the address handed to a method (value receiver spilled)
+					for _, r := range *fa.Referrers() {
+						switch y := r.(type) {
+						case *ssa.UnOp:
+							if y.Op == token.MUL {
+								// a map only used as the target of writes is the view itself, not a read
+								onlyWrites := true
+								for _, rr := range *y.Referrers() {
+									switch z := rr.(type) {
+									case *ssa.MapUpdate:
+										if z.Map != ssa.Value(y) {
+											onlyWrites = false
+										}
+									case *ssa.Call:
+										if bi, ok := z.Call.Value.(*ssa.Builtin); !ok || bi.Name() != "delete" {
+											onlyWrites = false
+										}
+									default:
+										onlyWrites = false
+									}
+								}
+								if !onlyWrites {
+									state = append(state, y)
+								}
+							}
+						case ssa.CallInstruction:
+							if y.Value() != nil {
+								state = append(state, y.Value())
+							}
+						}
+					}
+				})
+				// what counts as "deciding by remembered state": scalar state, membership in a
+				// remembered map (the ok of a comma-ok lookup, or a lookup in a set), results of
+				// methods on state values — but not the *content* looked up in a memo table
+				var seeds []ssa.Value
+				for _, v := range state {
+					if _, isMap := v.Type().Underlying().(*types.Map); !isMap {
+						seeds = append(seeds, v)
+						continue
+					}
+					for _, r := range *v.Referrers() {
+						lk, ok := r.(*ssa.Lookup)
+						if !ok || lk.X != v {
+							continue
+						}
+						if lk.CommaOk {
+							for _, rr := range *lk.Referrers() {
+								if ex, ok := rr.(*ssa.Extract); ok && ex.Index == 1 {
+									seeds = append(seeds, ex)
+								}
+							}
+							continue
+						}
+						mt := v.Type().Underlying().(*types.Map)
+						if st, ok := mt.Elem().Underlying().(*types.Struct); ok && st.NumFields() == 0 {
+							seeds = append(seeds, lk)
+						} else if bt, ok := mt.Elem().Underlying().(*types.Basic); ok && bt.Kind() == types.Bool {
+							seeds = append(seeds, lk)
+						}
+					}
+				}
+				ds := derived(seeds, flowOpts{throughCalls: true})
+				// fields (and maps) the index reads back are its bookkeeping, everything else it writes is the view
+				stateField := map[*types.Var]bool{}
+				for _, v := range state {
+					var src ssa.Value = v
+					if u, ok := v.(*ssa.UnOp); ok {
+						src = u.X
+					} else if call, ok := v.(*ssa.Call); ok && len(call.Call.Args) > 0 {
+						src = call.Call.Args[0]
+					}
+					if fa, ok := src.(*ssa.FieldAddr); ok {
+						stateField[fieldVarOf(fa)] = true
+					}
+				}
+				fieldOfMap := func(m ssa.Value) *types.Var {
+					if u, ok := m.(*ssa.UnOp); ok {
+						if fa, ok := u.X.(*ssa.FieldAddr); ok && isRecv(f, fa.X) {
+							return fieldVarOf(fa)
+						}
+					}
+					return nil
+				}
+				viewWrite := func(in ssa.Instruction) bool {
+					switch x := in.(type) {
+					case *ssa.MapUpdate:
+						fv := fieldOfMap(x.Map)
+						return fv != nil && !stateField[fv]
+					case *ssa.Call:
+						if bi, ok := x.Call.Value.(*ssa.Builtin); ok && bi.Name() == "delete" {
+							fv := fieldOfMap(x.Call.Args[0])
+							return fv != nil && !stateField[fv]
+						}
+					case *ssa.Store:
+						if fa, ok := x.Addr.(*ssa.FieldAddr); ok && isRecv(f, fa.X) {
+							return !stateField[fieldVarOf(fa)]
+						}
+					}
+					return false
+				}
+				for _, b := range f.Blocks {
+					if len(b.Instrs) == 0 {
+						continue
+					}
+					iff, ok := b.Instrs[len(b.Instrs)-1].(*ssa.If)
+					if !ok || !ds[iff.Cond] {
+						continue
+					}
+					hdr := loopHeader(b)
+					// can a view write still happen for this entry after taking the edge?
+					canWrite := func(sc *ssa.BasicBlock) bool {
+						if sc == hdr {
+							return false
+						}
+						stop := func(in ssa.Instruction) bool { return hdr != nil && in.Block() == hdr && instrIndex(in) == 0 }
+						hit, _ := findPath(f, atBlock(sc), stop, viewWrite, nil)
+						return hit != nil
+					}
+					w0, w1 := canWrite(b.Succs[0]), canWrite(b.Succs[1])
+					if w0 != w1 {
+						viol = true
+						c.bad("I6", fk+"→remembered-state", bestPos(iff), "while rebuilding the view the index branches on state it keeps between calls (a watermark, a set of applied entries, a counter) and one outcome skips the entry without interpreting it: entries merged below that mark — a concurrent branch, older history — are never seen, or never mark their keys as handled, so the view is no longer a function of the log alone")
+						break
+					}
+				}
+			}
 			if !viol {
-				c.ok("I6", fk+"#whole-order", f.Pos(), "every use of Values() covers the whole total order")
+				c.ok("I6", fk+"#whole-order", f.Pos(), "every use of Values() covers the whole total order and nothing remembered between calls decides what is interpreted")
 			}
 		}
 	}
@@ -198,6 +544,64 @@ func (c *Ctx) ruleT2() {
 				}
 			}
 		}
+		if bad == "" {
+			// positive form: the receiver must be the store's log (its accessor or the field itself)
+			var seeds []ssa.Value
+			eachInstr(f, func(in ssa.Instruction) {
+				switch x := in.(type) {
+				case *ssa.Call:
+					if methodName(x) == "OpLog" && len(argsOf(x)) == 0 {
+						seeds = append(seeds, x)
+					}
+				case *ssa.UnOp:
+					if fa, ok := x.X.(*ssa.FieldAddr); ok && x.Op == token.MUL {
+						if fv := fieldVarOf(fa); fv != nil && logI != nil {
+							if it, ok := fv.Type().Underlying().(*types.Interface); ok && types.Identical(it, logI) && st != nil {
+								ot := fa.X.Type()
+								if p, ok := ot.Underlying().(*types.Pointer); ok {
+									ot = p.Elem()
+								}
+								if n, ok := ot.(*types.Named); ok && n.Obj() == st.Obj() {
+									seeds = append(seeds, x)
+								}
+							}
+						}
+					}
+				}
+			})
+			if p, isParam := recv.(*ssa.Parameter); isParam {
+				// helper taking the log as parameter: every caller must pass the store's log
+				okAll, any := true, false
+				idx := -1
+				for i, q := range f.Params {
+					if q == p {
+						idx = i
+					}
+				}
+				for _, g := range c.RepoFns {
+					eachCall(g, func(call ssa.CallInstruction) {
+						if call.Common().StaticCallee() != f || idx < 0 || idx >= len(call.Common().Args) {
+							return
+						}
+						any = true
+						var gs []ssa.Value
+						eachCall(g, func(oc ssa.CallInstruction) {
+							if methodName(oc) == "OpLog" && len(argsOf(oc)) == 0 && oc.Value() != nil {
+								gs = append(gs, oc.Value())
+							}
+						})
+						if !derived(gs, flowOpts{intoClosures: true})[call.Common().Args[idx]] {
+							okAll = false
+						}
+					})
+				}
+				if !any || !okAll {
+					bad = "a log parameter that its callers do not (all) fill with the store's log"
+				}
+			} else if !derived(seeds, flowOpts{intoClosures: true})[recv] {
+				bad = "a log that is not the store's own (" + nf(recv) + ")"
+			}
+		}
 		if bad != "" {
 			c.bad("T2", cons, j.Pos(), "Join is called on "+bad+" (with the store's log as argument): Join checks access rights and signatures only for the entries of its ARGUMENT, so the fetched entries are adopted unchecked")
 		} else {
@@ -241,10 +645,6 @@ func (c *Ctx) ruleP4() {
 func (c *Ctx) ruleB4() {
 	n := 0
 	for _, s := range c.goSites() {
-		mc, ok := s.g.Call.Value.(*ssa.MakeClosure)
-		if !ok {
-			continue
-		}
 		hdr := loopHeader(s.g.Block())
 		if hdr == nil {
 			continue
@@ -253,6 +653,11 @@ func (c *Ctx) ruleB4() {
 			n++
 		}
 		cons := fmt.Sprintf("%s→go@loop#capture", fnKey(s.fn))
+		mc, ok := s.g.Call.Value.(*ssa.MakeClosure)
+		if !ok {
+			c.ok("B4", cons, s.g.Pos(), "the goroutine is a function call whose arguments are evaluated in the iteration that starts it")
+			continue
+		}
 		bad := ""
 		body, _ := mc.Fn.(*ssa.Function)
 		for i, b := range mc.Bindings {
